@@ -8,17 +8,11 @@ TRUST = ("Trusted base: the instrumenter (mechanical source rewriting that prese
          "testing/synctest's fake clock and quiescence detection (go1.26.8), the simulated environment listed under "
          "stub_components in the evidence file. Pre-emption happens only at synchronisation points; seeded search samples, it does not enumerate.")
 
-CHECKS = {
- "C01": dict(level="exploration", ref="5 (C01), 3.1-3.3",
-   technique="deterministic simulation: seeded schedule + fault search over the real Scheduler with a runner-lifetime monitor",
-   text="Seeded search over interleavings of the real server/sched.go (both loops, timers, finish/requeue goroutines) with tape-drawn clients, load failures, ping failures, cancels, explicit unloads and evictions; a monitor inside the simulated runner checks at every Close() and every grant that no request in progress holds the runner, that it is closed at most once and never granted after close, and after every step that a held runner is still the loaded runner of its model. Exploration is the right level: the property is quantified over schedules, which only sampling of a controlled scheduler reaches at this code size."),
- "C02": dict(level="exploration", ref="5 (C02), 3.1-3.3",
-   technique="deterministic simulation: seeded schedule + fault search, exactly-once reply oracle, fair drain phase with wait-for-graph deadlock detection",
-   text="Same executions as C01 plus queue-overflow bursts; oracle: a submit into a full queue is told ErrMaxQueue in the same step, every request not cancelled by its caller gets exactly one reply over both channels (cancelled: at most one), and after a fair drain phase (faults off, every model explicitly unloaded, simulated time past the longest keep-alive) every runner ever started has been closed exactly once and the loaded table is empty; a stuck run is classified through the lock wait-for graph kept by the simulated mutexes."),
- "C11": dict(level="exploration", ref="5 (C11), 3.8",
-   technique="deterministic simulation: seeded schedule + configuration search with step-wise invariants over the set of live runners and a black-box fit oracle",
-   text="Same harness with OLLAMA_MAX_LOADED_MODELS / OLLAMA_NUM_PARALLEL / GPU inventory drawn per run; at every newServerFn call: live runners + 1 <= envconfig.MaxRunners(), no live runner for the same model, and (GPU inventories, other runners live) llm.PredictServerFit holds for the GPUs chosen with free memory reduced by the live runners' estimates; at every grant the runner was started with load options compatible with the request; scenario-conditional arms check reuse (one start per model when nothing forces a reload) and idle-first eviction (a busy holder that waits for the third request turns a wrong victim into a liveness failure)."),
-}
+CHECKS = {}
+for _f in sorted(os.listdir(os.path.join(HERE, "bin", "manifest.d"))):
+    if _f.endswith(".json"):
+        with open(os.path.join(HERE, "bin", "manifest.d", _f)) as _fh:
+            CHECKS.update(json.load(_fh)["checks"])
 
 NA = {
  "C03": "not built yet in this revision (H-store harness pending); no claim is made",
